@@ -286,11 +286,29 @@ def task_noroots(t):
             mm.collect_garbage()
             if len(mm) >= n_before:
                 raise Violation('harness: the collection freed nothing')
+            hcase = dict(case, released_every=stride, offset=off)
+            # a pickle of ALL nodes (no roots named) of a manager with holes in its numbering
+            try:
+                mm.dump(fname)
+                wantn = {O.Den(mm, U)(u_) for u_ in mm._succ}
+                tgt = S.new_bdd()
+                tgt.load(fname)
+                dn = O.Den(tgt, U)
+                gotn = {dn(u_) for u_ in tgt._succ}
+                rep.add('evaluations')
+                if not wantn <= gotn | {U.full ^ g_ for g_ in gotn}:
+                    rec('noroots-holes-missing', 'a stored function is missing after loading a '
+                        'pickle made without roots from a manager with freed node numbers', hcase)
+                O.check(tgt, {}, U)
+            except Violation as e:
+                rec('noroots-holes:' + e.what, e.what, hcase, **e.detail)
+            except Exception as e:  # noqa
+                rec('noroots-holes-exception:' + type(e).__name__, 'a pickle made without roots '
+                    'from a manager with freed node numbers does not load: %r' % (e,), hcase)
             mm._dump_manager(fname2)
             m3 = type(mm)._load_manager(fname2)
             rep.add('evaluations')
             rep.add('nontrivial')
-            hcase = dict(case, released_every=stride, offset=off)
             for attr in ('vars', '_succ', '_ref', 'roots', 'max_nodes'):
                 if getattr(mm, attr) != getattr(m3, attr):
                     rec('manager-pickle-holes', 'whole-manager pickle of a manager with freed '
